@@ -103,6 +103,26 @@ SCENARIOS = {
         type Item { u: Used other: OnlyInSchema sub(kind: ArgEnum): Item }
         type Query { item(i: In): Item }
         """, "query Q { item { u } }", {"enable_custom_operations": True}),
+    # an enum selected only for one possible type of an abstract position: a union member that is not the first, an implementation
+    # reached through an inline fragment / a fragment on the sub-type
+    "enum-selected-only-for-a-later-member-of-an-abstract-position": ("""
+        enum Coat { SHORT LONG } enum Tail { CURLY } enum Mood { CALM } enum Perch { HIGH } enum UnusedHere { U }
+        interface Animal { name: String }
+        type Cat implements Animal { name: String mood: Mood }
+        type Dog implements Animal { name: String coat: Coat tail: Tail }
+        type Bird implements Animal { name: String perch: Perch }
+        union Pet = Cat | Dog | Bird
+        type Query { pets: [Pet!] animal: Animal }
+        """, "fragment OnBird on Bird { perch } query Pets { pets { ... on Cat { name } ... on Dog { coat } } animal { name ... on Dog { tail } ...OnBird } }", {}),
+    # input objects and enums written as literals in the operation text: no generated Python code mentions their types
+    "inline-literal-arguments-of-input-and-enum-type": ("""
+        enum State { OPEN CLOSED } enum Order { ASC DESC } enum Prio { HIGH } enum ViaVariable { V }
+        input Range { from: Int to: Int }
+        input Filter { state: State range: Range }
+        input Paging { first: Int prio: Prio }
+        type Ticket { id: ID! }
+        type Query { tickets(filter: Filter, order: Order, paging: Paging, v: ViaVariable): [Ticket!] }
+        """, "query Tickets($paging: Paging, $v: ViaVariable) { tickets(filter: {state: OPEN, range: {from: 1}}, order: DESC, paging: $paging, v: $v) { id } }", {}),
     "diamond-repeated-type-and-cycle": ("""
         enum K { A } enum K2 { B } enum KUnused { C }
         input Leaf { k: K }
